@@ -16,10 +16,12 @@ except ImportError:          # executed from tools/props
 PROP = "C20"
 LEVEL = "proof"
 GEN_UNITS = ["GenUtils3"]      # Props/C20Gen.v states the size / subscript / value checks of from_aggregator (and sptendiag) over the GENERATED tt_sizecheck / tt_subscheck / tt_valscheck
-COQ_TARGETS = ["Props/C20.vo", "Props/C20Gen.vo", "Model/C20Harness.vo", "Model/Harness.vo"]
+COQ_TARGETS = ["Props/C20.vo", "Props/C20Gen.vo", "Model/C20Harness.vo", "Model/C20Pack.vo", "Model/Harness.vo"]
 THEOREM_FILES = ["Props/C20.v", "Props/C20Gen.v"]
-COQ_IMPORTS = ("From Coq Require Import List ZArith Bool QArith Qcanon.\n"
-               "From PV Require Import Base.Index Np.Array Model.Sparse Model.Repr Model.Harness Model.C20Gen Model.C20Harness.\n")
+# PrimInt63 FIRST (only for the [...]%uint63 literals of C20Pack.zs/zss/zsss): its names are shadowed again by the later imports
+COQ_IMPORTS = ("From Coq Require Import PrimInt63.\n"
+               "From Coq Require Import List ZArith Bool QArith Qcanon.\n"
+               "From PV Require Import Base.Index Np.Array Model.Sparse Model.Repr Model.Harness Model.C20Gen Model.C20Harness Model.C20Pack.\n")
 RULE = ("all shapes with <= 8 cells + seeded random shapes (orders 1-5, singleton modes); function outputs as C-, F-ordered, "
         "1-d and differently shaped arrays with distinct values; diagonal element vectors of length 1-4 against no shape / "
         "shorter / longer / mixed shapes (1-4 modes); aggregator inputs with arbitrary multiplicities, unsorted, zero-summing "
@@ -186,14 +188,14 @@ def gen_cases(rng, tier):
     # random sparse generators: counts up to saturation and beyond, dyadic densities, seeds
     seed = 0
     rshapes = [(2, 2), (2, 3), (3,), (1,), (4, 3, 2), (1, 5), (2, 2, 2, 2), (6, 5), (3, 3, 3)]
-    rshapes += [tuple(tgen.rand_shape(rng, maxn=4, maxcells=40)) for _ in range(16 if big else 5)]     # (25 made 1.6-2.4 GB coqc shards in the thorough tier)
+    rshapes += [tuple(tgen.rand_shape(rng, maxn=4, maxcells=40)) for _ in range(25 if big else 5)]     # (wave 5: the draws are uint63 literals, C20Pack - a thorough shard is <= 0.6 GB)
     for shp in rshapes:
         total = math.prod(shp)
         reqs = {0, 1, 2, total - 1, total, total + 1, max(0, total // 2), max(0, total - 2)}
         reqs = [Fraction(r) for r in sorted(reqs)] + [Fraction(-1), Fraction(1, 2), Fraction(1, 4), Fraction(3, 4), Fraction(1, 16),
                                                      Fraction(15, 16), Fraction(11, 4), Fraction(1, 1024)]
         for r in reqs:
-            for rep in range(2 if (big and total <= 16) else 1):      # (more repetitions made 2 GB coqc shards: killed on a loaded machine)
+            for rep in range(2 if big else 1):
                 fn = rng.choice(["ones", "counter", "uniform"])
                 cases.append(Case("sp_from_function", {"shape": list(shp), "p": r.numerator, "q": r.denominator, "fn": fn, "seed": seed},
                                   total > 1))
@@ -566,10 +568,35 @@ def gsp(o):
     return tgen.gsparse(o["shape"], o["subs"], o["vals"])
 
 
+def _u63(v):
+    return isinstance(v, int) and 0 <= v < 2 ** 62
+
+
+def gzbig(l):
+    """a list of Z; when it holds 53-bit numerators of uniform draws it is written as primitive 63-bit integer literals decoded by
+    C20Pack.zs (one term node per number instead of a 53-node positive: Coq's elaboration of the shard costs ~50 KB and 0.5 ms
+    per big Z literal)"""
+    if not l or not all(_u63(v) for v in l) or max(l) < 2 ** 20:
+        return gzlist(l)
+    return "(zs [" + "; ".join(str(v) for v in l) + "]%uint63)"
+
+
 def gdraws(draws):
+    """the captured draw matrices (numerators m of u = m / 2^53), as uint63 literals decoded by C20Pack.zsss"""
+    if not draws:
+        return "(@nil (list (list Z)))"
+    assert all(_u63(v) for m in draws for r in m for v in r)
+
+    def gr(r):
+        return "(@nil int)" if not r else "[" + "; ".join(str(v) for v in r) + "]"
+
     def gm(m):
-        return "(@nil (list Z))" if not m else "[" + "; ".join(gzlist(r) for r in m) + "]"
-    return "(@nil (list (list Z)))" if not draws else "[" + "; ".join(gm(m) for m in draws) + "]"
+        return "(@nil (list int))" if not m else "[" + "; ".join(gr(r) for r in m) + "]"
+    return "(zsss [" + "; ".join(gm(m) for m in draws) + "]%uint63)"
+
+
+def gsp_big(shape, subs, vals):
+    return f"(mkSp {gnlist(shape)} {gnmat(subs)} {gzbig(vals)})"
 
 
 def _sp_ok(o):
@@ -594,8 +621,8 @@ def coq_check(c, o):
         n = math.prod(a["shape"])
         if not (o["in_range"] and o["repro"] and len(o["draws"]) == 1 and o["data_shape"] == o["shape"]):
             return "false"
-        return (f"opt_eqb dense_eqb (zfrom_function {gnlist(a['shape'])} (mkDense [{n}]%nat {gzlist(o['draws'][0])})) "
-                f"(Some (mkDense {gnlist(o['shape'])} {gzlist(o['m'])}))")
+        return (f"opt_eqb dense_eqb (zfrom_function {gnlist(a['shape'])} (mkDense [{n}]%nat {gzbig(o['draws'][0])})) "
+                f"(Some (mkDense {gnlist(o['shape'])} {gzbig(o['m'])}))")
     if c.op == "from_function":
         model = f"(zfrom_function {gnlist(a['shape'])} (mkDense {gnlist(a['oshape'])} {gzlist(a['ovals'])}))"
         if "exc" in o:
@@ -664,8 +691,8 @@ def coq_check(c, o):
                     return "false"
                 obs_vals = res["vals"]
                 vals = [1] * res["nnz"] if a["fn"] == "ones" else list(range(1, res["nnz"] + 1))
-            ob = f"(SOk {tgen.gsparse(res['shape'], res['subs'], obs_vals)})"
-        return (f"sprand_call_ok {cnt_impl} {gnlist(a['shape'])} {gdraws(o['draws'])} {gzlist(vals)} "
+            ob = f"(SOk {gsp_big(res['shape'], res['subs'], obs_vals)})"
+        return (f"sprand_call_ok {cnt_impl} {gnlist(a['shape'])} {gdraws(o['draws'])} {gzbig(vals)} "
                 f"{len(o['draws'])} {ob}")
     if c.op in ("tenones_z", "tenzeros_z"):
         fn = "ztenones_chk" if c.op == "tenones_z" else "ztenzeros_chk"
